@@ -36,7 +36,7 @@ Definition gen_shape : shape :=
           (smem "error_occurred=False" parse_macro_tree_resets) (smem "all_errors=''" parse_macro_tree_resets)
           limit_restored_in_finally.
 
-Lemma shape_of_the_tree : gen_shape = shape_of limit_restored_in_finally.
+Lemma shape_of_the_tree : gen_shape = code_shape.
 Proof. reflexivity. Qed.
 
 (* ---- the transcribed functions are the ones the model was written from ---- *)
@@ -49,7 +49,9 @@ Lemma tie_parse_macro_tree : skel_parse_macro_tree =
 Proof. reflexivity. Qed.
 
 Lemma tie_lex_parse_curr_file : skel_lex_parse_curr_file =
-  ["global curr_text, curr_namespace"; "curr_text = curr_file.open('r', encoding='utf-8').read()";
+  ["global curr_text, curr_namespace"; "try:"; "> curr_text = curr_file.open('r', encoding='utf-8').read()";
+   "except UnicodeDecodeError as e:";
+   "> raise FlipJumpParsingException(f'file {curr_file} is not valid utf-8 text: {e}') from None";
    "curr_namespace = []"; "lex_res = lexer.tokenize(curr_text)"; "exit_if_errors()"; "parser.parse(lex_res)";
    "exit_if_errors()"].
 Proof. reflexivity. Qed.
@@ -86,17 +88,23 @@ Proof. reflexivity. Qed.
 Lemma tie_exit_if_errors : List.length skel_exit_if_errors = 2%nat /\ hd "" skel_exit_if_errors = "if error_occurred:".
 Proof. split; reflexivity. Qed.
 
-(* assemble: parse, then expand (where the limit is set), then resolve and write; library errors pass, anything else
-   becomes the catch-all; and - on the current tree - nothing restores the limit *)
-Lemma tie_assemble_stage_order :
-  nth 2 skel_assemble "" = "> > macros = parse_macro_tree(input_files, memory_width, warning_as_errors)"
-  /\ nth 4 skel_assemble "" = "> > ops, labels = resolve_macros(memory_width, macros, show_statistics=show_statistics, max_recursion_depth=max_recursion_depth)"
-  /\ nth 6 skel_assemble "" = "> > labels_resolve(ops, labels, memory_width, fjm_writer)"
-  /\ nth 9 skel_assemble "" = "> > fjm_writer.write_to_file()"
-  /\ nth 10 skel_assemble "" = "> > save_debugging_labels(debugging_file_path, labels)"
-  /\ nth 11 skel_assemble "" = "except FlipJumpException as fj_exception:"
-  /\ nth 13 skel_assemble "" = "except Exception as unknown_exception:".
-Proof. repeat split; reflexivity. Qed.
+(* assemble: the limit is read first; parse, then expand (where the limit is set), then resolve and write; library
+   errors pass, anything else becomes the catch-all; the `finally` puts the limit back *)
+Lemma tie_assemble :
+  skel_assemble =
+  ["recursion_limit_before = sys.getrecursionlimit()"; "try:";
+   "> with PrintTimer('  parsing:         ', print_time=print_time):";
+   "> > macros = parse_macro_tree(input_files, memory_width, warning_as_errors)";
+   "> with PrintTimer('  macro resolve:   ', print_time=print_time):";
+   "> > ops, labels = resolve_macros(memory_width, macros, show_statistics=show_statistics, max_recursion_depth=max_recursion_depth)";
+   "> with PrintTimer('  labels resolve:  ', print_time=print_time):";
+   "> > labels_resolve(ops, labels, memory_width, fjm_writer)"; "> assert_first_op_assembled(fjm_writer)";
+   "> with PrintTimer('  create binary:   ', print_time=print_time):"; "> > fjm_writer.write_to_file()";
+   "> > save_debugging_labels(debugging_file_path, labels)"; "except FlipJumpException as fj_exception:";
+   "> raise fj_exception"; "except Exception as unknown_exception:";
+   "> raise FlipJumpAssemblerException('Unknown exception during assembling the .fj files, please report this bug') from unknown_exception";
+   "finally:"; "> sys.setrecursionlimit(recursion_limit_before)"].
+Proof. reflexivity. Qed.
 
 Lemma tie_resolve_macros_sets_limit_first :
   hd "" skel_resolve_macros = "preprocessor_data = PreprocessorData(memory_width, macros, max_recursion_depth)"
@@ -116,11 +124,15 @@ Lemma container_mutations_are_modelled :
   map (fun t => (snd (fst t), snd t)) container_mutations =
   [("curr_namespace", "pop"); ("curr_namespace", "append"); ("_stl_prefix_cache", "item-assignment")].
 Proof. reflexivity. Qed.
-(* the only interpreter-wide setting touched is the recursion limit, at one site *)
+(* the only interpreter-wide setting touched is the recursion limit: set in PreprocessorData.__init__, read and
+   put back by assemble *)
 Lemma process_global_calls_are_modelled :
-  map (fun t => (snd (fst (fst t)), snd (fst t))) process_global_calls =
-  [("PreprocessorData.__init__", "sys.setrecursionlimit")] \/ limit_restored_in_finally = true.
-Proof. first [left; reflexivity | right; reflexivity]. Qed.
+  map (fun t => (snd (fst (fst t)), snd (fst t), snd t)) process_global_calls =
+  [("assemble", "sys.getrecursionlimit", ""); ("assemble", "sys.setrecursionlimit", "recursion_limit_before");
+   ("PreprocessorData.__init__", "sys.setrecursionlimit",
+    "max_recursion_depth + GAP_BETWEEN_PYTHONS_AND_PREPROCESSOR_MACRO_RECURSION_DEPTH")]
+  /\ limit_restored_in_finally = true.
+Proof. split; reflexivity. Qed.
 
 (* ---- constants ---- *)
 Lemma tie_constants :
@@ -129,40 +141,6 @@ Lemma tie_constants :
 Proof. repeat split; reflexivity. Qed.
 
 (* ---- the theorem for the shape read from the tree ---- *)
-Theorem C13_tie_history_free :
-  forall (text diag consts macros mainops opts output : Type)
-         (init_consts : Z -> consts) (init_macros : string -> string -> macros) (init_main : mainops)
-         (parse_file : Z -> bool -> list string -> pstate consts macros mainops -> string -> string -> text
-                       -> parse_out diag consts macros mainops)
-         (final_validate : pstate consts macros mainops -> list diag)
-         (backend : Z -> Z -> Z -> opts -> pstate consts macros mainops -> output + diag)
-         (U : request text diag opts -> Prop),
-    content_identified U -> spelling_identified U ->
-    forall (history : list (request text diag opts)) (probe : request text diag opts),
-      Forall U history -> U probe ->
-      limit_restored init_consts init_macros init_main parse_file final_validate backend gen_shape
-                     (init_g fresh_process_recursion_limit) history = true ->
-      snd (assemble_step init_consts init_macros init_main parse_file final_validate backend gen_shape
-             (run_history init_consts init_macros init_main parse_file final_validate backend gen_shape
-                          (init_g fresh_process_recursion_limit) history) probe)
-      = snd (assemble_step init_consts init_macros init_main parse_file final_validate backend gen_shape
-                           (init_g fresh_process_recursion_limit) probe).
-Proof.
-  rewrite shape_of_the_tree. intros.
-  eapply (history_free_guarded text diag consts macros mainops opts output); eauto.
-Qed.
+Theorem C13_tie_history_free : history_free_statement gen_shape.
+Proof. rewrite shape_of_the_tree. exact history_free_code. Qed.
 Print Assumptions C13_tie_history_free.
-
-(* when the tree restores the limit (after the fix of F13) the guard disappears *)
-Theorem C13_tie_unguarded_when_limit_restored :
-  limit_restored_in_finally = true -> history_free_statement gen_shape.
-Proof.
-  rewrite shape_of_the_tree. intros ->. exact history_free_fixed.
-Qed.
-
-(* on the current tree it is not restored: the unguarded statement is false for the shape read from the source *)
-Theorem C13_tie_current_tree_refuted :
-  limit_restored_in_finally = false -> ~ history_free_statement gen_shape.
-Proof.
-  rewrite shape_of_the_tree. intros ->. exact history_free_refuted.
-Qed.
